@@ -59,7 +59,7 @@ theorem inv_run {s : State} (ops : List Op) (hs : Inv s) (hops : ∀ op ∈ ops,
 /-- a state without contracts, queue entries and supply records satisfies the invariant -/
 theorem inv_fresh {s : State} (h1 : s.htlcs = []) (h2 : s.queue = []) (h3 : s.supplies = []) : Inv s := by
   refine ⟨?_, ⟨?_, ?_, ?_⟩, ?_, ?_⟩
-  · intro id c hg; rw [h1] at hg; simp at hg
+  · exact ⟨by rw [h1]; exact List.nodup_nil, fun id c hg => by rw [h1] at hg; simp at hg⟩
   · rw [h2]; exact List.nodup_nil
   · intro id c hg; rw [h1] at hg; simp at hg
   · intro h id hm; rw [h2] at hm; simp at hm
@@ -194,6 +194,122 @@ theorem apply_trans {s : State} {op : Op} (hs : Inv s) {id : Id} {c : Contract}
   cases h : step s op with
   | ok s' => exact step_trans hs h hg
   | error e => exact ⟨c, hg, .stay⟩
+
+/-! ### contracts come into existence only by `create`, and open -/
+
+theorem absent_beginBlock {s s' : State} {h t : Nat} (hs : Inv s) (e : BlockEff s h t s') {id : Id}
+    (hg : AMap.get? s.htlcs id = none) : AMap.get? s'.htlcs id = none := by
+  have hm : (h, id) ∉ s.queue := by
+    intro hm
+    obtain ⟨c, hc, _⟩ := hs.2.1.2.2 h id hm
+    rw [hg] at hc; cases hc
+  rw [e.others id hm]; exact hg
+
+theorem absent_advance {s : State} (hs : Inv s) (n dt : Nat) {s' : State} (h : advance s n dt = .ok s')
+    {id : Id} (hg : AMap.get? s.htlcs id = none) : AMap.get? s'.htlcs id = none := by
+  induction n generalizing s with
+  | zero => simp [advance] at h; subst h; exact hg
+  | succ n ih =>
+    obtain ⟨s1, e⟩ := beginBlock_ok hs (s.height + 1) (s.time + dt)
+    simp only [advance, e.run] at h
+    exact ih e.inv h (absent_beginBlock hs e hg)
+
+/-- the record a successful `create` stores -/
+theorem stepCreate_record {s s' : State} {id sender to coins lock ts tl transfer}
+    (h : stepCreate s id sender to coins lock ts tl transfer = .ok s') :
+    ∃ dir b sp, s' = record { s with bank := b, supplies := sp } id (newContract s sender to coins lock ts tl transfer dir) := by
+  obtain ⟨_, _, hfresh, hb⟩ := stepCreate_ok h
+  cases transfer with
+  | false => obtain ⟨b, _, rfl⟩ := createPlain_ok hb; exact ⟨_, _, _, rfl⟩
+  | true =>
+    simp only [if_true] at hb
+    obtain ⟨d, n, a, hcoins, _, _, _, _, _, hcase⟩ := createHTLT_ok hb
+    subst hcoins
+    rcases hcase with ⟨_, _, hc⟩ | ⟨_, _, hc⟩
+    · obtain ⟨_, _, _, rfl⟩ := createIncoming_ok hc; exact ⟨_, _, _, rfl⟩
+    · obtain ⟨_, _, _, _, _, _, _, _, rfl⟩ := createOutgoing_ok hc; exact ⟨_, _, _, rfl⟩
+
+/-- **a contract appears only through `create`, under the id `genId …`, and open** -/
+theorem step_absent {s s' : State} {op : Op} (hs : Inv s) (h : step s op = .ok s') {id : Id}
+    (hg : AMap.get? s.htlcs id = none) :
+    AMap.get? s'.htlcs id = none ∨
+    ∃ sender to coins lock ts tl transfer dir,
+      op = .create sender to coins lock ts tl transfer ∧ id = genId lock sender to coins ∧
+      AMap.get? s'.htlcs id = some (newContract s sender to coins lock ts tl transfer dir) := by
+  cases op with
+  | create sender to coins lock ts tl transfer =>
+    simp only [step] at h
+    obtain ⟨dir, b, sp, rfl⟩ := stepCreate_record h
+    by_cases e : genId lock sender to coins = id
+    · right
+      refine ⟨sender, to, coins, lock, ts, tl, transfer, dir, rfl, e.symm, ?_⟩
+      simp only [record]; rw [get?_set]; simp [e]
+    · left
+      simp only [record]; rw [get?_set]; simp [e]; exact hg
+  | claim sender id0 secret =>
+    left
+    simp only [step] at h
+    obtain ⟨c0, s1, hget, hopen, hlk, hf, rfl⟩ := stepClaim_ok h
+    have hh : s1.htlcs = s.htlcs := by
+      rcases claimFunds_ok hf with ⟨_, b, _, rfl⟩ | ⟨_, _, d0, n, r, _, hci⟩ | ⟨_, _, d0, n, r, _, hco⟩
+      · rfl
+      · obtain ⟨_, _, _, _, _, _, _, _, rfl⟩ := claimIncoming_ok hci; rfl
+      · obtain ⟨_, _, _, _, _, _, rfl⟩ := claimOutgoing_ok hco; rfl
+    have hne : id0 ≠ id := by intro e; subst e; rw [hg] at hget; cases hget
+    rw [close_htlcs, get?_set, hh]; simp [hne, hg]
+  | beginBlock hh t =>
+    left
+    obtain ⟨s1, e⟩ := beginBlock_ok hs hh t
+    have : step s (.beginBlock hh t) = .ok s1 := e.run
+    rw [this] at h; cases h
+    exact absent_beginBlock hs e hg
+  | advance n dt => left; exact absent_advance hs n dt h hg
+  | setParams auth ps =>
+    left
+    simp only [step, stepSetParams] at h
+    split at h; · cases h
+    split at h; · cases h
+    cases h; exact hg
+
+/-- the bank after an accepted claim is the bank before adjusted by the claim's payout -/
+theorem stepClaim_bank {s s' : State} {id secret lk} (h : stepClaim s id secret lk = .ok s') :
+    ∃ c, AMap.get? s.htlcs id = some c ∧ c.state = .open ∧ lk = c.hashLock ∧ s'.bank = payClaim s.bank c ∧
+      s'.htlcs = AMap.set s.htlcs id (completed c secret s.height) ∧
+      s'.queue = dequeue s.queue (c.expiration, id) := by
+  obtain ⟨c, s1, hget, hopen, hlk, hf, rfl⟩ := stepClaim_ok h
+  refine ⟨c, hget, hopen, hlk, ?_⟩
+  rcases claimFunds_ok hf with ⟨ht, b, hb, rfl⟩ | ⟨ht, hdir, d0, n, r, hamt, hci⟩ | ⟨ht, hdir, d0, n, r, hamt, hco⟩
+  · refine ⟨?_, rfl, rfl⟩
+    simp only [payClaim, ht]; exact sendCoins_eq hb
+  · obtain ⟨sup, a, b, hsup, hin, ha, hfit, hb, rfl⟩ := claimIncoming_ok hci
+    refine ⟨?_, rfl, rfl⟩
+    simp only [payClaim, ht, hdir, if_true]; exact sendCoins_eq hb
+  · obtain ⟨sup, b, hsup, hout, hcur, hb, rfl⟩ := claimOutgoing_ok hco
+    refine ⟨?_, rfl, rfl⟩
+    simp only [payClaim, ht, hdir, if_true]; exact burnCoins_eq hb
+
+/-- the bank after an accepted create is the bank before adjusted by the escrow-in -/
+theorem stepCreate_bank {s s' : State} {id sender to coins lock ts tl transfer}
+    (h : stepCreate s id sender to coins lock ts tl transfer = .ok s') :
+    ∃ dir, AMap.get? s'.htlcs id = some (newContract s sender to coins lock ts tl transfer dir) ∧
+      s'.bank = payCreate s.bank (newContract s sender to coins lock ts tl transfer dir) := by
+  obtain ⟨_, _, hfresh, hb⟩ := stepCreate_ok h
+  cases transfer with
+  | false =>
+    obtain ⟨b, hsend, rfl⟩ := createPlain_ok hb
+    refine ⟨.none, by simp only [record]; rw [get?_set]; simp, ?_⟩
+    simp only [payCreate, newContract, record]; exact sendCoins_eq hsend
+  | true =>
+    simp only [if_true] at hb
+    obtain ⟨d, n, a, hcoins, _, _, _, _, _, hcase⟩ := createHTLT_ok hb
+    subst hcoins
+    rcases hcase with ⟨_, _, hc⟩ | ⟨_, _, hc⟩
+    · obtain ⟨_, _, _, rfl⟩ := createIncoming_ok hc
+      refine ⟨.incoming, by simp only [record]; rw [get?_set]; simp, ?_⟩
+      simp [payCreate, newContract, record]
+    · obtain ⟨_, b, _, _, hsend, _, _, _, rfl⟩ := createOutgoing_ok hc
+      refine ⟨.outgoing, by simp only [record]; rw [get?_set]; simp, ?_⟩
+      simp only [payCreate, newContract, record]; exact sendCoins_eq hsend
 
 /-! ### queue entries stay in the future on consecutive blocks -/
 
